@@ -319,3 +319,223 @@ E("EQ-flip-id-check", KS,
 
 def all_mutants():
     return BREAK + EQUIV
+
+# ======================================================================== C02
+B("C02-apply-before-append", "C02", "C02:R-C02.1:keyspace::Keyspace::insert:append-before-apply", KS,
+  """        let seqno = self.supervisor.seqno.next();
+
+        journal_writer
+            .write_raw(self.id, &key, &value, lsm_tree::ValueType::Value, seqno)
+            .inspect_err(|_| {
+                self.is_poisoned.poison();
+            })?;
+
+        if !self.config.manual_journal_persist {
+            journal_writer
+                .persist(crate::PersistMode::Buffer)
+                .inspect_err(|e| {
+                    log::error!("persist failed, which is a FATAL, and possibly hardware-related, failure: {e:?}");
+                    self.is_poisoned.poison();
+                })?;
+        }
+
+        let (item_size, memtable_size) = self.tree.insert(key, value, seqno);
+""",
+  """        let seqno = self.supervisor.seqno.next();
+
+        let (item_size, memtable_size) = self.tree.insert(key.clone(), value.clone(), seqno);
+
+        journal_writer
+            .write_raw(self.id, &key, &value, lsm_tree::ValueType::Value, seqno)
+            .inspect_err(|_| {
+                self.is_poisoned.poison();
+            })?;
+
+        if !self.config.manual_journal_persist {
+            journal_writer
+                .persist(crate::PersistMode::Buffer)
+                .inspect_err(|e| {
+                    log::error!("persist failed, which is a FATAL, and possibly hardware-related, failure: {e:?}");
+                    self.is_poisoned.poison();
+                })?;
+        }
+""")
+B("C02-remove-no-persist", "C02", "C02:R-C02.1:keyspace::Keyspace::remove:persist-between-append-and-apply", KS,
+  """        if !self.config.manual_journal_persist {
+            journal_writer
+                .persist(crate::PersistMode::Buffer)
+                .inspect_err(|e| {
+                    log::error!("persist failed, which is a FATAL, and possibly hardware-related, failure: {e:?}");
+                    self.is_poisoned.poison();
+                })?;
+        }
+
+        let (item_size, memtable_size) = self.tree.remove(key, seqno);
+
+        self.supervisor.snapshot_tracker.publish(seqno);
+
+        drop(journal_writer);
+
+        self.supervisor.write_buffer_size.allocate(item_size);
+        self.maintenance(memtable_size);
+
+        Ok(())
+    }
+
+    /// Removes an item from the keyspace, leaving behind a weak tombstone.""",
+  """        let (item_size, memtable_size) = self.tree.remove(key, seqno);
+
+        self.supervisor.snapshot_tracker.publish(seqno);
+
+        drop(journal_writer);
+
+        self.supervisor.write_buffer_size.allocate(item_size);
+        self.maintenance(memtable_size);
+
+        Ok(())
+    }
+
+    /// Removes an item from the keyspace, leaving behind a weak tombstone.""")
+B("C02-persist-polarity", "C02", "C02:R-C02.1:keyspace::Keyspace::clear:persist-between-append-and-apply", KS,
+  """        if !self.config.manual_journal_persist {
+            journal_writer
+                .persist(crate::PersistMode::Buffer)
+                .map_err(|e| {""",
+  """        if self.config.manual_journal_persist {
+            journal_writer
+                .persist(crate::PersistMode::Buffer)
+                .map_err(|e| {""")
+B("C02-batch-wiring-polarity", "C02", "C02:R-C02.2:db::Database::batch", DB,
+  """        if !self.config.manual_journal_persist {
+            batch = batch.durability(Some(PersistMode::Buffer));
+        }""",
+  """        if self.config.manual_journal_persist {
+            batch = batch.durability(Some(PersistMode::Buffer));
+        }""")
+B("C02-tx-durability-dropped", "C02", "C02:R-C02.2:tx::write_tx::BaseTransaction::commit", "src/tx/write_tx.rs",
+  """        let mut batch = OwnedWriteBatch::new(self.db).durability(self.durability);""",
+  """        let mut batch = OwnedWriteBatch::new(self.db).durability(None);""")
+B("C02-early-ack", "C02", "C02:R-C02.1:keyspace::Keyspace::remove_weak:apply-on-all-success-paths", KS,
+  """        let (item_size, memtable_size) = self.tree.remove(key, seqno);
+
+        self.supervisor.snapshot_tracker.publish(seqno);
+
+        drop(journal_writer);
+
+        self.supervisor.write_buffer_size.allocate(item_size);
+        self.maintenance(memtable_size);
+
+        Ok(())
+    }
+}""",
+  """        if key.is_empty() {
+            return Ok(());
+        }
+
+        let (item_size, memtable_size) = self.tree.remove(key, seqno);
+
+        self.supervisor.snapshot_tracker.publish(seqno);
+
+        drop(journal_writer);
+
+        self.supervisor.write_buffer_size.allocate(item_size);
+        self.maintenance(memtable_size);
+
+        Ok(())
+    }
+}""")
+B("C02-dirty-flag-cleared-early", "C02", "C02:R-C02.3:journal::writer::Writer::persist", WRITER,
+  """        if self.is_buffer_dirty {
+            self.file.flush().inspect_err(|e| {""",
+  """        if self.is_buffer_dirty {
+            self.is_buffer_dirty = false;
+            self.file.flush().inspect_err(|e| {""")
+B("C02-write-clear-not-dirty", "C02", "C02:R-C02.3:journal::writer::Writer::write_clear", WRITER,
+  """        seqno: SeqNo,
+    ) -> crate::Result<usize> {
+        self.is_buffer_dirty = true;
+
+        let mut hasher = xxhash_rust::xxh3::Xxh3::default();
+        let mut byte_count = 0;
+
+        self.buf.clear();
+        byte_count += self.write_start(1, seqno)?;
+        self.buf.clear();
+
+        Entry::Clear { keyspace_id }""",
+  """        seqno: SeqNo,
+    ) -> crate::Result<usize> {
+        let mut hasher = xxhash_rust::xxh3::Xxh3::default();
+        let mut byte_count = 0;
+
+        self.buf.clear();
+        byte_count += self.write_start(1, seqno)?;
+        self.buf.clear();
+
+        Entry::Clear { keyspace_id }""")
+B("C02-journals-descending", "C02", "C02:R-C02.4:journal::recovery::recover_journals", "src/journal/recovery.rs",
+  """    journal_fragments.sort_by_key(|(a, _)| *a);""",
+  """    journal_fragments.sort_by_key(|(a, _)| std::cmp::Reverse(*a));""")
+B("C02-sealed-after-keyspaces-swapped", "C02", "C02:R-C02.4:db::Database::recover", DB,
+  """        // Recover keyspaces
+        recover_keyspaces(&db, &meta_keyspace)?;
+
+        // Recover sealed memtables by walking through old journals
+        recover_sealed_memtables(
+            &db,
+            &sealed_journals
+                .into_iter()
+                .map(|(_, x)| x)
+                .collect::<Vec<_>>(),
+        )?;
+""",
+  """        // Recover sealed memtables by walking through old journals
+        recover_sealed_memtables(
+            &db,
+            &sealed_journals
+                .into_iter()
+                .map(|(_, x)| x)
+                .collect::<Vec<_>>(),
+        )?;
+
+        // Recover keyspaces
+        recover_keyspaces(&db, &meta_keyspace)?;
+""")
+B("C02-sealed-reversed", "C02", "C02:R-C02.4:db::Database::recover:sealed-list", DB,
+  """            &sealed_journals
+                .into_iter()
+                .map(|(_, x)| x)
+                .collect::<Vec<_>>(),""",
+  """            &sealed_journals
+                .into_iter()
+                .rev()
+                .map(|(_, x)| x)
+                .collect::<Vec<_>>(),""")
+B("C02-foreign-journal-delete", "C02", "C02:R-C02.5:recovery::recover_sealed_memtables", REC,
+  """        log::debug!("Requeued sealed journal at {}", journal_path.display());""",
+  """        if journal_size == 0 {
+            std::fs::remove_file(journal_path)?;
+        }
+        log::debug!("Requeued sealed journal at {}", journal_path.display());""")
+E("EQ-persist-helper-fn", KS,
+  """        if !self.config.manual_journal_persist {
+            journal_writer
+                .persist(crate::PersistMode::Buffer)
+                .inspect_err(|e| {
+                    log::error!("persist failed, which is a FATAL, and possibly hardware-related, failure: {e:?}");
+                    self.is_poisoned.poison();
+                })?;
+        }
+
+        let (item_size, memtable_size) = self.tree.insert(key, value, seqno);""",
+  """        let auto_persist = !self.config.manual_journal_persist;
+        if auto_persist {
+            let res = journal_writer.persist(crate::PersistMode::Buffer);
+            if let Err(e) = res {
+                log::error!("persist failed, which is a FATAL, and possibly hardware-related, failure: {e:?}");
+                self.is_poisoned.poison();
+                return Err(e.into());
+            }
+        }
+
+        let (item_size, memtable_size) = self.tree.insert(key, value, seqno);""")
